@@ -3795,9 +3795,9 @@ static Value eval_expression(ASTNode *expr, Environment *env) {
             /* Create array */
             Value arr = create_array(elem_type, count, count);
             
-            /* Set elements */
+            /* Set elements: the first one has been evaluated already (evaluating it again would repeat its effects) */
             for (int i = 0; i < count; i++) {
-                Value elem = eval_expression(expr->as.array_literal.elements[i], env);
+                Value elem = (i == 0) ? first : eval_expression(expr->as.array_literal.elements[i], env);
                 
                 /* Store element in array data */
                 switch (elem_type) {
